@@ -39,13 +39,13 @@ CHECKS = {
     'C08': {
         'text': 'Verus proves the REQ/REP state machines per call: out-of-turn REQ send / REP send return the message intact and change nothing; REQ recv without a request changes nothing; a successful REQ send marks exactly the peer written to; REP send writes to exactly the entry of the stored requester and to no other (table equal elsewhere).',
         'design_ref': 'DESIGN.md 4 (C08)',
-        'note': 'Sequential scope: per-call contracts over an owned peer-table model; interleavings of concurrent clients are not enumerated. RepSocketBackend::peer_disconnected is a stub.',
+        'note': 'Sequential scope: per-call contracts over an owned peer-table model; interleavings of concurrent clients are not enumerated. The monitor channel is a stand-in.',
         'technique': 'Verus state-machine contracts on extracted REQ/REP methods with a peer-table model (prophecy-style &mut entry)',
     },
     'C09': {
         'text': 'Verus proves ROUTER recv returns [identity of the queue key] + frames unmodified for the first message item and forgets exactly the peers whose connection failed; ROUTER send (>=2 frames) writes frames[1..] to exactly the table entry whose identity equals frame 0 and fails without touching any entry otherwise; registration stores write half, queue entry and rotation entry under the same identity.',
         'design_ref': 'DESIGN.md 4 (C09)',
-        'note': 'A-REGION-3/4 assumed (fair-queue insert/remove behind a mutex). Sequential scope. Identity provenance is C04.',
+        'note': 'Sequential scope (Arc as Box, shared borrows of interior-mutable data as &mut: D7). Identity provenance is proved in the handshake unit (also C04).',
         'technique': 'Verus contracts on ROUTER skeletons and GenericSocketBackend registration',
     },
     'C10': {
